@@ -292,14 +292,41 @@ def _work(task):
         signal.setitimer(signal.ITIMER_REAL, 0.0)
 
 
+def _work_batch(task):
+    """one mixed batch (>= 16 observers of different kinds, ONE getB and ONE getH call) -> its failures"""
+    import random
+    import signal
+    cls, sub = task
+    signal.signal(signal.SIGALRM, _alarm)
+    signal.setitimer(signal.ITIMER_REAL, 300.0)
+    try:
+        b = S.gen_batch(random.Random(sub), cls)
+        res = S.evaluate_batch(b)
+        judged = sum(1 for _, _, r in res if r["status"] in ("ok", "fail"))
+        return cls, judged, len(res), S.judge_batch(b, res)
+    except _Watchdog:
+        return cls, 0, 0, []
+    finally:
+        signal.setitimer(signal.ITIMER_REAL, 0.0)
+
+
 def search(ctx, n_per_class, procs=4):
     rng = ctx.rng
     tasks = [(c, rng.getrandbits(48)) for c in S.CLASSES for _ in range(n_per_class)]
+    btasks = [(c, rng.getrandbits(48)) for c in S.CLASSES for _ in range(max(3, n_per_class // 40))]
     if procs > 1:
         with Pool(procs) as p:
             out = p.map(_work, tasks, chunksize=16)
+            bout = p.map(_work_batch, btasks, chunksize=2)
     else:
         out = [_work(t) for t in tasks]
+        bout = [_work_batch(t) for t in btasks]
+    for cls, judged, nrows, fails in bout:
+        ctx.bump(f"search:mixed-batch:{cls}")
+        ctx.count("search_batch_rows_judged", judged)
+        ctx.count("evaluations", judged)
+        for sig, what, rp in fails:
+            ctx.impl_fail(sig, what, rp)
     out = [(c, r) for c, r in out if c is not None]
     cases = [c for c, _ in out]
     res = [r for _, r in out]
@@ -407,5 +434,16 @@ def replay(ctx, obj):
         if failed:
             print(f"VIOLATION property=C01 replay={obj.get('how_to_rerun', '').split()[-1] if obj.get('how_to_rerun') else 'given'}")
         return 1 if failed else 0
+    if rp.get("kind") == "field-batch":
+        b = rp["batch"]
+        res = S.evaluate_batch(b)
+        fails = S.judge_batch(b, res)
+        for sig, what, _ in fails:
+            print(f"replay: FAILS [{sig}] {what}")
+        if not fails:
+            print("replay: property holds on every row of this batch")
+        else:
+            print(f"VIOLATION property=C01 replay={obj.get('how_to_rerun', '').split()[-1] if obj.get('how_to_rerun') else 'given'}")
+        return 1 if fails else 0
     print(json.dumps(obj, indent=1)[:3000])
     return 0
